@@ -149,7 +149,7 @@ func streamHistory(r *hx.Rng, cfs []*cfile, bs *builtSet) {
 							for l := 0; l <= len(p); l++ {
 								wouldStale = wouldStale || h.sized[pathKey(p[:l])]
 							}
-							if wouldStale && hc.staleAt < 0 && r.Intn(3) != 0 {
+							if wouldStale && hc.staleAt < 0 && r.Intn(3) != 0 && !hasNegZero(md, canonical(h.mirror)) {
 								h.sized = map[string]bool{}
 								tok, kind = "K", 'R'
 								break
@@ -225,7 +225,9 @@ func streamHistory(r *hx.Rng, cfs []*cfile, bs *builtSet) {
 							h.sized = map[string]bool{}
 							tok, kind = "U:"+hx.B(enc), 'U'
 						default:
-							if r.Bool() {
+							// (the runtimes' Clone / Merge -- protobuf-go and gogo alike -- leave out a -0.0 held by an implicit-presence float field: a quirk of the
+							// runtime csproto.Clone passes through; such states are reset instead of cloned)
+							if r.Bool() || hasNegZero(md, canonical(h.mirror)) {
 								h.mirror = dynamicpb.NewMessage(md)
 								tok = "R"
 							} else {
